@@ -1618,7 +1618,7 @@ def rule_complete(env, shared):
                 fs = derive_satsub([tuple(m.canon(x) if isinstance(x, tuple) else x for x in f) for f in fs0])
                 # ... or under LEN <= a value *loaded* from the position counter: the counter never decreases on a pull
                 # path (ATOM), so nothing inside the source is reserved on this path at all
-                okk = any(f[0] == "le" and len(f) == 3 and f[1] == Lc and f[2][0] == "atomic" and f[2][1] in ("fetch_add", "load")
+                okk = any(f[0] in ("le", "lt") and len(f) == 3 and f[1] == Lc and f[2][0] == "atomic" and f[2][1] in ("fetch_add", "load")
                           and R.classify(f[2][2])[0] == "pos" for f in fs)
                 if not okk:
                     bad = b.file_line(b.term(bi)["loc"])
